@@ -460,6 +460,17 @@ def gen_case(rng):
             flt[k] = rng.sample(PKGS, rng.randint(1, 3))
     ign = rng.sample(["pool/main/a", "pool/main/b/beta", "pool", "pool/main/a/alpha/alpha_1_amd64.deb",
                       "pool/main/l"], rng.randint(0, 2)) if rng.random() < 0.4 else []
+    if rng.random() < 0.3:
+        # ignore_errors naming ONE file of this very index (a .deb, or one file of a source package), or its
+        # directory: "exactly the files at or below the listed paths"
+        nof = {"inc_src": [], "exc_src": [], "inc_bin": [], "exc_bin": []}
+        try:
+            listed = sorted(r[0] for r in (ref_packages if kind == "packages" else ref_sources)(text, nof, []))
+        except Exception:
+            listed = []
+        if listed:
+            p = rng.choice(listed)
+            ign = ign + [rng.choice([p, p, p.rsplit("/", 1)[0], p[:-1]])]
     return {"kind": kind, "text": text, "flt": flt, "ign": ign,
             "compression": rng.choice([None, None, None, "xz", "gz", "bz2"])}
 
